@@ -1,10 +1,11 @@
 """Development helper: state counts per slice of a builder-based check (no dump, no invariants)."""
 import importlib
+import os
 import sys
 
 sys.path.insert(0, "/verif")
-from vf import replay, tlc
-from vf.envs import Pool
+os.environ["VERIF_NODUMP"] = "1"
+from vf import builder
 
 mod = importlib.import_module("vf.checks." + sys.argv[1])
 tier = sys.argv[2] if len(sys.argv) > 2 else "quick"
@@ -14,9 +15,5 @@ for sl in mod.slices(tier):
         continue
     if sl.simulate:
         continue
-    pool = Pool(sl.terminals, nenv=sl.nenv, seed=1, complex_env=sl.complex_env, small=sl.small)
-    name = "MC_" + sl.name.replace("-", "_")
-    mc = replay.mc_module(name, pool, sl.lits, sl.zeros, sl.idx, sl.ops | sl.finalops, sl.maxnodes, sl.maxrank, sl.maxdim, sl.finalops, sl.levels, ())
-    cfg = replay.mc_cfg(pool, sl.maxnodes, sl.maxrank, sl.maxdim, dump=False, invariants=(), props=(), mikinds=sl.mikinds)
-    r = tlc.run(name, cfg, mc_text=mc, mc_name=name, workers=4, timeout=90)
+    pool, r = builder._tlc_phase(1, sl, 120, 4)
     print(sl.name, r.outcome, r.distinct, r.generated, round(r.wall, 1), flush=True)
